@@ -70,7 +70,10 @@ def diag_words(o):
 
 def suite_rt(tier):
     r = common.rng("C02.rt")
-    return Suite("rt", IMPORTS, "chk_rt", [rt_case(s) for s in L.class_specs(r, tier, bad=0.03)], shard=200)
+    specs = []
+    for _ in range(1 if tier == "quick" else 8):
+        specs += L.class_specs(r, tier, bad=0.03)
+    return Suite("rt", IMPORTS, "chk_rt", [rt_case(s) for s in specs], shard=200)
 
 
 def hist_case(r, spec, pool):
@@ -128,7 +131,7 @@ def suite_hist(tier):
     for s in specs:
         by_class.setdefault(s[0], []).append(s)
     cases = []
-    per = 14 if tier == "quick" else 60
+    per = 14 if tier == "quick" else 250
     for name, ss in sorted(by_class.items()):
         pool = []
         for s in ss:
